@@ -557,6 +557,7 @@ func (c *Conn) Close() error {
 	// in is deliberately not closed: Write can be running on any goroutine, and
 	// a send on a closed channel panics. Closing done tells it to stop instead.
 	close(c.done)
+	verifTick(verifTickCliCloseDone)
 
 	fr := AcquireFrameHeader()
 	defer ReleaseFrameHeader(fr)
@@ -592,6 +593,7 @@ func (c *Conn) Close() error {
 func (c *Conn) Write(r *Ctx) {
 	select {
 	case c.in <- r:
+		verifTick(verifTickCliInSent)
 	case <-c.done:
 		r.resolve(c.closeErr())
 
@@ -613,6 +615,7 @@ func (c *Conn) Write(r *Ctx) {
 func (c *Conn) writeOut(fr *FrameHeader) {
 	select {
 	case c.out <- fr:
+		verifTick(verifTickCliOutSent)
 	case <-c.done:
 		ReleaseFrameHeader(fr)
 	}
@@ -696,6 +699,8 @@ func (we WriteError) As(target interface{}) bool {
 }
 
 func (c *Conn) writeLoop() {
+	defer verifTick(verifTickCliWLExit)
+
 	lastErr := c.runWriteLoop()
 	if lastErr == nil {
 		lastErr = io.ErrUnexpectedEOF
@@ -748,10 +753,14 @@ func (c *Conn) runWriteLoop() (lastErr error) {
 	defer ticker.Stop()
 
 	for {
+		verifTick(verifTickCliWLTop)
+
 		select {
 		case <-c.done:
 			return lastErr
 		case ctx := <-c.in: // sending requests
+			verifTick(verifTickCliInTaken)
+
 			err := c.writeRequest(ctx)
 			if err != nil {
 				ctx.resolve(err)
@@ -763,6 +772,8 @@ func (c *Conn) runWriteLoop() (lastErr error) {
 				return WriteError{err}
 			}
 		case fr := <-c.out: // generic output
+			verifTick(verifTickCliOutTaken)
+
 			err := c.writeFrame(fr)
 
 			ReleaseFrameHeader(fr)
@@ -771,10 +782,14 @@ func (c *Conn) runWriteLoop() (lastErr error) {
 				return WriteError{err}
 			}
 		case <-c.winCh: // a send window opened
+			verifTick(verifTickCliWinTaken)
+
 			if err := c.flushPending(); err != nil {
 				return WriteError{err}
 			}
 		case <-ticker.C: // ping
+			verifTick(verifTickCliPingTaken)
+
 			if err := c.writePing(); err != nil {
 				return WriteError{err}
 			}
@@ -820,6 +835,8 @@ func (c *Conn) finish(r *Ctx, stream uint32, err error) {
 }
 
 func (c *Conn) readLoop() {
+	defer verifTick(verifTickCliRLExit)
+
 	defer func() { _ = c.Close() }()
 
 	// A panic here would otherwise take the whole process down: this goroutine
@@ -1192,6 +1209,7 @@ func (c *Conn) addWindow(streamID uint32, inc int32) {
 func (c *Conn) signalWindow() {
 	select {
 	case c.winCh <- struct{}{}:
+		verifTick(verifTickCliWinSent)
 	default:
 	}
 }
@@ -1457,6 +1475,8 @@ func (c *Conn) writeData(id uint32, body []byte, end bool) (err error) {
 func (c *Conn) readNext() (fr *FrameHeader, err error) {
 loop:
 	for err == nil {
+		verifTick(verifTickCliRead)
+
 		fr, err = ReadFrameFrom(c.br)
 		if err != nil {
 			// A frame of a type we do not know must be discarded rather than
